@@ -31,22 +31,14 @@ Theorem C12_named_member_types_filenames : forall k root nm e e' s',
 Proof. exact tf_named_member. Qed.
 Print Assumptions C12_named_member_types_filenames.
 
-(* MGHImage-style classes: a spelling of ".mgz" that posixpath.splitext recognises as the
-   extension is written under the name given *)
+(* MGHImage-style classes: ANY name ending in a spelling of ".mgz" (dot-files such as ".mgz" or
+   "d/.MGZ" included: filespec_to_file_map uses splitext_addext, as load does) is written under
+   the name given *)
 Theorem C12_mgz_written : forall k root m',
-  fkind k = 1 -> lower m' = MGZ -> os_splitext (root ++ m') = (root, m') ->
+  fkind k = 1 -> lower m' = MGZ ->
   filespec_to_file_map k (root ++ m') = Ok [(IMAGE, root ++ m')].
 Proof. exact filespec_mgz. Qed.
 Print Assumptions C12_mgz_written.
-
-(* ... and without that premise the statement is false: for the dot-file name ".mgz" load()
-   accepts the extension (splitext_addext) but the file map names ".mgz.mgh" (finding S-C12b) *)
-Theorem C12_mgz_dotfile_refuted :
-  exists k fn fm, wf_class k = true /\ fkind k = 1 /\ In k all_classes
-    /\ ext_valid k fn = true /\ filespec_to_file_map k fn = Ok fm
-    /\ forall nm, dict_get fm nm <> Some fn.
-Proof. exact mgz_dotfile_refuted. Qed.
-Print Assumptions C12_mgz_dotfile_refuted.
 
 (* the other members share root and suffix (as spelled) and follow the case rule: upper-case
    extension when the user's is all upper case, the table's (lower-case) extension otherwise *)
@@ -80,12 +72,11 @@ Print Assumptions C12_parse_total.
 (* generic load on a name written by class number n of the table (member extension e valid
    for loading, any case mix e', suffix s'), when the class's own header test accepts the file
    (oracle bit n): the loop returns a class j <= n that accepts the extension, and that class's
-   file map contains the very name given.  The premise about ".mgz" excludes dot-files only. *)
+   file map contains the very name given. *)
 Theorem C12_load_finds_class : forall ks oracle n k root e e' s',
   wf_table ks = true -> nth_error ks n = Some k -> wf_class k = true ->
   In e (vexts k) -> lower e' = lower e -> suffix_ok k s' ->
   nth n oracle false = true ->
-  (s' = [] -> lower e' = MGZ -> os_splitext (root ++ e') = (root, e')) ->
   exists j kj, load_class ks oracle (root ++ e' ++ s') 0 = Ok (Some j) /\ (j <= n)%nat
     /\ nth_error ks j = Some kj /\ ext_valid kj (root ++ e' ++ s') = true
     /\ (wf_class kj = true ->
@@ -95,20 +86,19 @@ Proof. intros ks oracle n k root e e' s' H. apply load_finds_class. now apply wf
 Print Assumptions C12_load_finds_class.
 
 (* for ANY name: the class loop never raises (no TypesFilenamesError escapes _sniff_meta_for),
-   and a class it picks accepts the extension and — unless the two splitext functions disagree
-   about ".mgz" — has a file map that contains the name *)
+   and a class it picks accepts the extension and has a file map that contains the name *)
 Theorem C12_load_any_name : forall ks oracle fn,
   wf_table ks = true ->
   (exists r, load_class ks oracle fn 0 = Ok r)
   /\ forall j, load_class ks oracle fn 0 = Ok (Some j) ->
        exists kj, nth_error ks j = Some kj /\ ext_valid kj fn = true
-         /\ (wf_class kj = true -> (fkind kj = 1 -> mgz_agree fn) ->
+         /\ (wf_class kj = true ->
              exists fm nm, filespec_to_file_map kj fn = Ok fm /\ dict_get fm nm = Some fn).
 Proof.
   intros ks oracle fn H. split; [apply load_class_total; now apply wf_table_ok|].
   intros j Hj. destruct (load_class_sound ks oracle fn 0 j Hj) as (kj & _ & Hn & Hv).
   rewrite Nat.sub_0_r in Hn. exists kj. repeat split; auto.
-  intros Hwf Hag. now apply ext_valid_accepts.
+  intros Hwf. now apply ext_valid_accepts.
 Qed.
 Print Assumptions C12_load_any_name.
 
@@ -118,6 +108,17 @@ Theorem C12_opener_matches_suffix : forall keys root x y,
   opener_index keys (root ++ x ++ y) = find_index (fun key => ieq key y) keys 0.
 Proof. exact opener_index_suffix. Qed.
 Print Assumptions C12_opener_matches_suffix.
+
+(* ... but not of a bare extension: for the dot-file name ".mgz" the file map keeps the name
+   (C12_mgz_written) while Opener (posixpath.splitext) sees no extension and writes the file
+   uncompressed, whereas "d.mgz" gets the gzip opener (candidate finding S-C12c) *)
+Theorem C12_opener_dotfile_refuted :
+  exists k fn, In k all_classes /\ fkind k = 1
+    /\ filespec_to_file_map k fn = Ok [(IMAGE, fn)] /\ lower fn = MGZ
+    /\ opener_index image_opener_keys fn = None
+    /\ opener_index image_opener_keys (100 :: fn) = Some 3%nat.
+Proof. exact opener_dotfile_refuted. Qed.
+Print Assumptions C12_opener_dotfile_refuted.
 
 (* to_bytes = to_stream = the file written by name read back through its opener, for any
    serialiser of the class and any codec family with decompress (compress b) = b; for a name
